@@ -452,5 +452,9 @@ pub fn replay(part: &str, bytes: &[u8], case: &Value, stats: &mut Stats) -> Verd
 /// Byte-level entry for the fuzz target.
 pub fn fuzz_entry(bytes: &[u8]) -> Verdict {
     let mut st = Stats::new();
-    check(bytes, &mut st)
+    if bytes.first().map(|b| b & 0x80 != 0).unwrap_or(false) {
+        check_effective(bytes, &mut st)
+    } else {
+        check(bytes, &mut st)
+    }
 }
